@@ -209,3 +209,16 @@ func (mgr *Manager) VerifConverterWritten(path string) {
 	}
 	<-c
 }
+
+
+// VerifSetIndexDir changes the directory merges (and new converter caches) write to, inside the
+// service loop: pointing it at a missing directory makes merges fail the way a full or read-only
+// disk does, while imports (which use the builder's own copy of the path) go on.
+func (mgr *Manager) VerifSetIndexDir(dir string) {
+	c := make(chan struct{})
+	mgr.jobs <- func() {
+		mgr.IndexDir = dir
+		close(c)
+	}
+	<-c
+}
